@@ -146,40 +146,56 @@ Record rgroup := mk_rg { rg_rows : N; rg_chunks : list (option (option N)) }.
         if rg.num_rows == 0: continue
         st = rg.columns[i].meta_data.statistics          # IndexError when there is no i-th chunk
         if st is None: num_nulls = True; break
-        if st.null_count: num_nulls = True; break                                                   *)
-Fixpoint null_evidence (i : nat) (rgs : list rgroup) : option bool :=
+        if st.null_count is None or st.null_count: num_nulls = True; break
+   absent_counts = true is the repaired tree (fix: commit): statistics WITHOUT a null_count cannot exclude nulls;
+   the pinned tree (`if st.null_count:`) took an absent null_count for zero (absent_counts = false).           *)
+Fixpoint null_evidence_gen (absent_counts : bool) (i : nat) (rgs : list rgroup) : option bool :=
   match rgs with
   | [] => Some false
   | rg :: r =>
-    if N.eqb (rg_rows rg) 0 then null_evidence i r
+    if N.eqb (rg_rows rg) 0 then null_evidence_gen absent_counts i r
     else match nth_error (rg_chunks rg) i with
          | None => None
          | Some None => Some true
-         | Some (Some None) => null_evidence i r
-         | Some (Some (Some n)) => if N.eqb n 0 then null_evidence i r else Some true
+         | Some (Some None) => if absent_counts then Some true else null_evidence_gen absent_counts i r
+         | Some (Some (Some n)) => if N.eqb n 0 then null_evidence_gen absent_counts i r else Some true
          end
   end.
+Definition null_evidence := null_evidence_gen true.
+
+(* the two repairs made by fix: commits, as switches (both false = the pinned tree) *)
+Record rules := mk_rules { r_int96_tz : bool; r_absent_counts : bool; r_cat_md : bool }.
+Definition repaired : rules := mk_rules true true true.
+Definition pinned_rules : rules := mk_rules false false false.
 
 (* ------------------------------------------------------------------------------------------ *)
 (* ParquetFile._dtypes: one top-level field                                                    *)
 (* ------------------------------------------------------------------------------------------ *)
-Definition md_claims_int_or_bool (md : option mdent) : bool :=
+(* tt = md.get(col, {}).get("numpy_type"); if tt and ("int" in tt or "bool" in tt) [and pandas_type != "categorical"]: continue
+   cat_md = true is the repaired tree (fix: commit): for a categorical entry numpy_type describes the CODES, so it says
+   nothing about the values; the pinned tree trusted it (cat_md = false) *)
+Definition md_claims_gen (cat_md : bool) (md : option mdent) : bool :=
   match md with
   | Some m => negb (match md_numpy m with [] => true | _ => false end) &&
-              (contains (b_ "int") (md_numpy m) || contains (b_ "bool") (md_numpy m))
+              (contains (b_ "int") (md_numpy m) || contains (b_ "bool") (md_numpy m)) &&
+              negb (cat_md && bytes_eqb (md_pandas m) (b_ "categorical"))
   | None => false
   end.
+Definition md_claims_int_or_bool := md_claims_gen true.
+Definition md_cat_skip (cat_md : bool) (md : option mdent) : bool :=
+  match md with Some m => cat_md && bytes_eqb (md_pandas m) (b_ "categorical") | None => false end.
 
 (* what _dtypes does with the dtype `d` typemap gave, as a function of the FACTS it looks at:
      md_np   the field's numpy_type looked up as a dtype (None: the field has no pandas-metadata entry)
-     tz      the entry has a timezone;  claims  md_claims_int_or_bool;  ev  null_evidence (None: IndexError)
+     tz      the entry has a timezone;  claims  md_claims_gen;  cat_skip  md_cat_skip;  ev  null_evidence (None: IndexError)
    int96_tz = true is the repaired tree (fix: commit): an INT96 field with a timezone entry is predicted tz-aware
    like the INT64 ones; the pinned tree answered 'M8[ns]' whatever the metadata says (int96_tz = false). *)
 Definition adjust (T : tables) (int96_tz has_md pandas_nulls : bool) (d : dt)
-           (md_np : option res) (tz claims : bool) (ev : option bool) : res :=
+           (md_np : option res) (tz claims cat_skip : bool) (ev : option bool) : res :=
   if kind_M d then
-    (* if self.pandas_metadata: dt = md[col]["numpy_type"]   (KeyError when the field has no entry) *)
-    let r1 := if has_md then match md_np with Some r => r | None => RErr end else ROk d in
+    (* if self.pandas_metadata [and md[col]["pandas_type"] != "categorical"]: dt = md[col]["numpy_type"]
+       (KeyError when the field has no entry; cat_skip = repaired tree and the entry is a categorical one) *)
+    let r1 := if has_md then match md_np with Some r => if cat_skip then ROk d else r | None => RErr end else ROk d in
     match r1 with
     | RErr => RErr
     | ROk d1 =>
@@ -201,18 +217,19 @@ Definition adjust (T : tables) (int96_tz has_md pandas_nulls : bool) (d : dt)
 
 Definition md_tzflag (md : option mdent) : bool := match md with Some m => md_tz m | None => false end.
 
-Definition base_dtype_gen (int96_tz : bool) (T : tables) (has_md pandas_nulls : bool) (se : selem) (md : option mdent)
+Definition base_dtype_gen (R : rules) (T : tables) (has_md pandas_nulls : bool) (se : selem) (md : option mdent)
            (i : nat) (rgs : list rgroup) : res :=
   if se_group se then ROk DObj else
   match typemap T se md with
   | RErr => RErr
-  | ROk d => adjust T int96_tz has_md pandas_nulls d
+  | ROk d => adjust T (r_int96_tz R) has_md pandas_nulls d
                     (option_map (fun m => lookup_name (t_npnames T) (md_numpy m)) md)
-                    (md_tzflag md) (md_claims_int_or_bool md) (null_evidence i rgs)
+                    (md_tzflag md) (md_claims_gen (r_cat_md R) md) (md_cat_skip (r_cat_md R) md)
+                    (null_evidence_gen (r_absent_counts R) i rgs)
   end.
 
-Definition base_dtype := base_dtype_gen true.
-Definition base_dtype_old := base_dtype_gen false.
+Definition base_dtype := base_dtype_gen repaired.
+Definition base_dtype_old := base_dtype_gen pinned_rules.
 
 (* ------------------------------------------------------------------------------------------ *)
 (* check_categories and the final prediction                                                  *)
